@@ -19,6 +19,10 @@ pub struct Case {
     pub base: SeqSpec,
     /// (position, byte) substitutions applied in order (position taken modulo the length)
     pub inject: Vec<(usize, u8)>,
+    /// (position, code point): afterwards the byte at the position (modulo the length) is replaced by the UTF-8
+    /// encoding of the character - text that stays valid UTF-8 and so reaches `str::parse` / `from_str`
+    #[serde(default)]
+    pub chars: Vec<(usize, u32)>,
 }
 
 pub struct Bytes;
@@ -176,6 +180,17 @@ fn text_of_case(case: &Case) -> Vec<u8> {
             text[p % n] = b;
         }
     }
+    for &(p, cp) in &case.chars {
+        if let (Some(c), false) = (char::from_u32(cp), text.is_empty()) {
+            let at = p % text.len();
+            // not in the middle of a character placed before
+            if text[at] < 0x80 {
+                let mut buf = [0u8; 4];
+                let enc = c.encode_utf8(&mut buf).as_bytes().to_vec();
+                text.splice(at..at + 1, enc);
+            }
+        }
+    }
     text
 }
 
@@ -185,7 +200,7 @@ impl Sub for Bytes {
         "bytes"
     }
     fn rule(&self) -> &'static str {
-        "valid text (both alphabets, lengths 0..200 quick / ..5000 thorough, biased to multiples of 16 +-3, plus texts around 1..4 x 4096 bytes) with 0-2 injected bytes from all 256 values (lower case, other alphabet's letters, NUL, >=0x80, punctuation) at positions relative to the 16/32-byte blocks and the scalar tail; encode / encode_raw / encode_into (into a reused destination holding a wrong symbol at every position, a whole vector and a sub-slice at offset 1..15 of a larger buffer) on generic, sse2, avx2 and the dispatcher forced to each arm, EncodedSequence::encode, from_str, Display compared with the model (ok iff all bytes in the alphabet; first offending byte reported); sweep = every length n <= 40 (quick) / 100 (thorough) x every position x every byte value, plus texts of 8192..16389 (thorough: ..32785 and 2 MiB) bytes with an invalid byte at each of the 68 positions around every multiple of 4096, alone and followed by a second one; non-trivial = n > 32 (vector path taken)"
+        "valid text (both alphabets, lengths 0..200 quick / ..5000 thorough, biased to multiples of 16 +-3, plus texts around 1..4 x 4096 bytes) with 0-2 injected bytes from all 256 values (lower case, other alphabet's letters, NUL, >=0x80, punctuation) and, in a fifth of the cases, 1-2 whole non-ASCII characters (any scalar value; biased to code points whose low byte is a letter of the alphabet) so that the text stays valid UTF-8 and reaches from_str, at positions relative to the 16/32-byte blocks and the scalar tail; encode / encode_raw / encode_into (into a reused destination holding a wrong symbol at every position, a whole vector and a sub-slice at offset 1..15 of a larger buffer) on generic, sse2, avx2 and the dispatcher forced to each arm, EncodedSequence::encode, from_str, Display compared with the model (ok iff all bytes in the alphabet; first offending byte reported); sweep = every length n <= 40 (quick) / 100 (thorough) x every position x every byte value, plus every two-byte character and every basic-plane character whose low byte is a letter inside a 5- and a 45-byte text, plus texts of 8192..16389 (thorough: ..32785 and 2 MiB) bytes with an invalid byte at each of the 68 positions around every multiple of 4096, alone and followed by a second one; non-trivial = n > 32 (vector path taken)"
     }
     fn cases(&self, tier: Tier) -> u64 {
         tier.pick(150_000, 4_000_000)
@@ -205,7 +220,28 @@ impl Sub for Bytes {
                     proptest::collection::vec((pos_strategy(), byte_strategy(abc)), 0..=2),
                 )
             })
-            .prop_map(|(abc, base, inject)| Case { abc, base, inject })
+            .prop_flat_map(|(abc, base, inject)| {
+                let letters = abc.letters().to_vec();
+                // characters outside ASCII: any scalar value, and those whose low byte is a letter of the alphabet
+                let cp = prop_oneof![
+                    3 => (0x80u32..=0x7ff),
+                    2 => (0x800u32..=0xffff),
+                    1 => (0x10000u32..=0x10ffff),
+                    4 => (1u32..=0xff, proptest::sample::select(letters)).prop_map(|(hi, lo)| (hi << 8) | lo as u32),
+                    1 => (1u32..=0x10, 0u32..=0xff, proptest::sample::select(abc.letters().to_vec())).prop_map(|(pl, hi, lo)| (pl << 16) | (hi << 8) | lo as u32),
+                ];
+                let chars = prop_oneof![4 => Just(Vec::new()), 1 => proptest::collection::vec((pos_strategy(), cp), 1..=2)];
+                (Just(abc), Just(base), Just(inject), chars)
+            })
+            .prop_map(|(abc, base, mut inject, chars)| {
+                if !chars.is_empty() {
+                    // keep the text valid UTF-8: single injected bytes stay within ASCII
+                    for x in inject.iter_mut() {
+                        x.1 &= 0x7f;
+                    }
+                }
+                Case { abc, base, inject, chars }
+            })
             .boxed()
     }
     fn sweep(&self, tier: Tier) -> Vec<Case> {
@@ -215,7 +251,7 @@ impl Sub for Bytes {
             for n in 1..=max {
                 for p in 0..n {
                     for b in 0..=255u8 {
-                        out.push(Case { abc, base: SeqSpec::Seeded { len: n, seed: n as u64, wild_pct: 5 }, inject: vec![(p, b)] });
+                        out.push(Case { abc, base: SeqSpec::Seeded { len: n, seed: n as u64, wild_pct: 5 }, inject: vec![(p, b)], chars: Vec::new() });
                     }
                 }
             }
@@ -232,9 +268,21 @@ impl Sub for Bytes {
                             continue;
                         }
                         for b in [b'x', 0xffu8] {
-                            out.push(Case { abc, base: SeqSpec::Seeded { len: n, seed: (n + k) as u64, wild_pct: 2 }, inject: vec![(p, b)] });
+                            out.push(Case { abc, base: SeqSpec::Seeded { len: n, seed: (n + k) as u64, wild_pct: 2 }, inject: vec![(p, b)], chars: Vec::new() });
                         }
-                        out.push(Case { abc, base: SeqSpec::Seeded { len: n, seed: (n + k) as u64, wild_pct: 2 }, inject: vec![(n - 1, b'y'), (p, b'x')] });
+                        out.push(Case { abc, base: SeqSpec::Seeded { len: n, seed: (n + k) as u64, wild_pct: 2 }, inject: vec![(n - 1, b'y'), (p, b'x')], chars: Vec::new() });
+                    }
+                }
+            }
+        }
+        // text that is valid UTF-8 but not ASCII (the `str` routes): every two-byte character, and every character of
+        // the basic plane whose low byte is a letter of the alphabet, in a short and in a vector-length text
+        for abc in [Abc::Dna, Abc::Protein] {
+            let letters = abc.letters();
+            for cp in 0x80u32..=0xffff {
+                if cp < 0x800 || letters.contains(&((cp & 0xff) as u8)) {
+                    for (n, p) in [(5usize, 2usize), (45, 37)] {
+                        out.push(Case { abc, base: SeqSpec::Seeded { len: n, seed: cp as u64, wild_pct: 5 }, inject: Vec::new(), chars: vec![(p, cp)] });
                     }
                 }
             }
@@ -243,7 +291,7 @@ impl Sub for Bytes {
             // 65536 vectors of 32 bytes: a 16-bit vector counter
             let n = (1usize << 21) + 70;
             for p in [(1usize << 21) - 1, (1usize << 21) - 33, (1usize << 21) + 1, (1usize << 20) - 1] {
-                out.push(Case { abc: Abc::Dna, base: SeqSpec::Seeded { len: n, seed: 21, wild_pct: 2 }, inject: vec![(p, b'x')] });
+                out.push(Case { abc: Abc::Dna, base: SeqSpec::Seeded { len: n, seed: 21, wild_pct: 2 }, inject: vec![(p, b'x')], chars: Vec::new() });
             }
         }
         out
@@ -260,6 +308,7 @@ impl Sub for Bytes {
         info.class_if(bad.is_empty(), "valid");
         info.class_if(bad.len() >= 2, "two-invalid-bytes");
         info.class_if(n >= 4096, "text>=4096-bytes");
+        info.class_if(text.iter().any(|&b| b >= 0x80) && std::str::from_utf8(&text).is_ok(), "valid-utf8-with-non-ascii-character(str-routes-run)");
         info.class_if(bad.first().map_or(false, |&p| p >= 4000 && (p % 4096 >= 4096 - 64)), "first-invalid-byte-in-last-64-before-a-4096-multiple");
         if let Some(&p) = bad.first() {
             let tail_start = n / 32 * 32;
